@@ -95,6 +95,12 @@ static void schema(Builder& b, const BlockParameters& s) {
     b.item(0, s.storage_parameters, T_StorageParameters, tag_of(s.storage_parameters));
     if (s.collection_parameters.m_init) b.item(1, s.collection_parameters.m_val, T_CollectionParameters, tag_of(s.collection_parameters.m_val));
 }
+static void schema(Builder& b, const FilePreamble& s) {
+    b.u(0, s.m_major_format_version); b.u(1, s.m_minor_format_version); b.uo(2, s.m_private_version);
+    size_t n = s.m_block_parameters.size();
+    int sl = tk_slot(3); b.put(3, Builder::mk(K_ARR, n));
+    for (unsigned k = 0; k < TK_NARR; k++) if (k < n) { Tok t = Builder::mk(K_ITEM, tag_of(s.m_block_parameters.m_data[k])); t.tid = T_BlockParameters; t.obj = &s.m_block_parameters.m_data[k]; b.S.arr[sl][k] = t; }
+}
 // query/response and malformed-message items: the time offset member is checked by the harness (it is computed, not stored)
 static void schema(Builder& b, const QueryResponse& s, bool with_offset, uint64_t offset) {
     if (with_offset && s.time_offset.m_init) b.u(0, offset);
@@ -202,6 +208,17 @@ extern "C" void h_w_malformedmessage(void) {
     tk_wreset(); EncBox e; std::size_t ret = b.v.write(e.e, earliest, tps); w_check(ret, E);
     if (b.v.time_offset.m_init) __verif_assert(g_off_calls == 1 && g_off_this == &b.v.time_offset.m_val && g_off_ref == &earliest && g_off_rate == tps,
                                                "time offset = record time relative to the block's earliest time at the block's own tick rate (C01)");
+    WITNESS_END();
+}
+extern "C" void h_w_filepreamble(void) {
+    for (unsigned n = 1; n <= 2; n++) {
+        Box<FilePreamble> b; new (&b.v) FilePreamble();
+        b.v.m_major_format_version = nondet_u8(); b.v.m_minor_format_version = nondet_u8(); oi(b.v.m_private_version);
+        b.v.m_block_parameters.m_size = n;
+        for (unsigned i = 0; i < 2; i++) b.v.m_block_parameters.m_data[i].storage_parameters.ticks_per_second = nondet_u64();
+        Store E; { Builder bd(E); schema(bd, b.v); }
+        tk_wreset(); EncBox e; std::size_t ret = b.v.write(e.e); w_check(ret, E);
+    }
     WITNESS_END();
 }
 // top-level array / scalar items
@@ -328,6 +345,23 @@ extern "C" void h_r_storageparameters(void) { r_params_common(0); }
 extern "C" void h_r_collectionparameters(void) { r_params_common(1); }
 extern "C" void h_r_blockparameters(void) { r_params_common(2); }
 
+#ifndef BLK_FP_NMAX
+#define BLK_FP_NMAX 1
+#endif
+extern "C" void h_r_filepreamble(void) {
+    for (unsigned n = 1; n <= BLK_FP_NMAX; n++) {
+        Box<FilePreamble> src; new (&src.v) FilePreamble();
+        src.v.m_major_format_version = nondet_u8(); src.v.m_minor_format_version = nondet_u8(); oi(src.v.m_private_version);
+        src.v.m_block_parameters.m_size = n;
+        for (unsigned i = 0; i < 2; i++) src.v.m_block_parameters.m_data[i].storage_parameters.ticks_per_second = nondet_u64();
+        tk_rreset(); { Builder bd(R); schema(bd, src.v); } Store E; { Builder be(E); schema(be, src.v); }
+        r_prepare(BLK_MAXM > 4);
+        Box<FilePreamble> dst; new (&dst.v) FilePreamble(); DecBox d; R_CALL(dst.v.read(d.d)) r_check_common(x, false);
+        if (x == RX_NONE) { Store G; { Builder bd(G); schema(bd, dst.v); }
+            __verif_assert(store_eq(G, E, false), "file preamble read back member for member: versions, private version present iff written, parameter sets at the same indices (C09)"); }
+    }
+    WITNESS_END();
+}
 extern "C" void h_r_timestamp(void) {
     tk_rreset(); tk_clear(R); R.top = K_ARR; R.started = true; R.declared = 2;
     R.arr[0][0] = Builder::mk(K_UINT, nondet_u64()); R.arr[0][1] = Builder::mk(K_UINT, nondet_u64());
